@@ -28,6 +28,8 @@ func main() {
 	shapes := flag.String("shapes", "", "print the key shape of the given function specs (comma separated)")
 	width := flag.Int("w", 400, "truncate dump/gen lines to this width")
 	_ = width
+	frz := flag.String("freeze", "", "freeze a picks file into a JSON table (printed on stdout)")
+	guards := flag.String("guards", "", "list guards (line: text) of the given function specs, compact")
 	gen := flag.String("gen", "", "print FnSpec skeletons for the given function specs (comma separated); -calls filters effects")
 	noEv := flag.Bool("no-evidence", false, "do not write evidence files")
 	flag.Parse()
@@ -63,6 +65,57 @@ func main() {
 	if *shapes != "" {
 		for _, spec := range strings.Split(*shapes, ",") {
 			fmt.Printf("%s = %s\n", spec, p.ShapeOfFunc(p.Func(spec)))
+		}
+		return
+	}
+	if *frz != "" {
+		freeze(p, *frz)
+		return
+	}
+	if ap := os.Getenv("XLINT_AUTOPICK"); ap != "" {
+		for _, spec := range strings.Split(ap, ",") {
+			fn := p.Func(spec)
+			fmt.Printf("fn %s\n", spec)
+			gs := p.FA(fn).Guards()
+			sort.Slice(gs, func(i, j int) bool { return gs[i].If.Block().Index < gs[j].If.Block().Index })
+			seen := map[int]bool{}
+			for _, g := range gs {
+				pos := g.If.Cond.Pos()
+				if !pos.IsValid() {
+					pos = guardPos(g)
+				}
+				l := p.Fset.Position(pos).Line
+				if seen[l] {
+					continue
+				}
+				seen[l] = true
+				s := g.Cond.String()
+				if len(s) > 90 {
+					s = s[:90]
+				}
+				fmt.Printf("g %d %s\n", l, strings.ReplaceAll(s, " ", "_"))
+			}
+			fmt.Println("s")
+		}
+		return
+	}
+	if *guards != "" {
+		for _, spec := range strings.Split(*guards, ",") {
+			fn := p.Func(spec)
+			fmt.Printf("## %s (%s)\n", spec, p.Pos(fn.Pos()))
+			gs := p.FA(fn).Guards()
+			sort.Slice(gs, func(i, j int) bool { return gs[i].If.Block().Index < gs[j].If.Block().Index })
+			for _, g := range gs {
+				pos := g.If.Cond.Pos()
+				if !pos.IsValid() {
+					pos = guardPos(g)
+				}
+				s := g.String()
+				if len(s) > *width {
+					s = s[:*width] + "…"
+				}
+				fmt.Printf("  L%d  %s\n", p.Fset.Position(pos).Line, s)
+			}
 		}
 		return
 	}
